@@ -9,6 +9,8 @@ From Qryn Require model.TqSql model.Traceql model.TraceqlPlan.
 From Qryn Require Import model.Sql model.SqlRender model.Logql model.LogqlPlan model.LogqlCases model.Replan proofs.ReplanProofs.
 From Qryn Require Import model.ProfSel model.ReplanLang proofs.ReplanLangProofs.
 From Qryn Require Import model.ReplanProf proofs.ReplanProfProofs.
+From Coq Require QArith.
+From Qryn Require Import model.SqlEval model.ReplanAlpha proofs.ReplanAlphaProofs.
 Import ListNotations.
 
 (* No Process method changes the plan object: whatever the planner tree, context and state, the
@@ -182,6 +184,88 @@ Theorem prof_plan_executes : forall m sels c, pprocess (plan_mode m sels) c <> N
 Proof. exact plan_mode_executes. Qed.
 Print Assumptions prof_plan_executes.
 
+(* ---- one context, id-drawing plans: the MEANING of the re-executed statement (fourth round) ----
+   `erase_sel` forgets the WITH list of every Select and the alias of a reference inside IN (...) or re-aliased in FROM
+   (fingerprint IN (subsel_3), FROM subsel_3 as samples) - the places where SimpleLabelFilterPlanner / MainRenewPlanner put
+   the id they draw - and nothing else. C07's semantics of the statements reads none of these places: for EVERY object
+   tree, database, oracle and tie-breaking the erasure evaluates like the statement itself. *)
+Theorem erasure_preserves_meaning :
+  forall (re_match : String.string -> String.string -> bool) (parse_float : String.string -> option QArith_base.Q)
+         (json_get : String.string -> list String.string -> String.string) (hash_labels : list (String.string * String.string) -> Z)
+         (tie : forall A : Type, list A -> list A) (db : database) (q : select),
+    eval re_match parse_float json_get hash_labels tie db (erase_sel q) = eval re_match parse_float json_get hash_labels tie db q.
+Proof. exact eval_erase. Qed.
+Print Assumptions erasure_preserves_meaning.
+
+(* Two Process calls on a plan without ByWithoutPlanner, from states whose caches have the same erasure and whose id
+   counters are ANY two numbers, return selects with the same erasure (or both fail) and leave such states. *)
+Theorem process_erasure_ignores_counter :
+  forall p, no_by_without p = true ->
+  forall c st1 st2, state_sim st1 st2 -> sim_res (process p c st1) (process p c st2).
+Proof. exact process_sim. Qed.
+Print Assumptions process_erasure_ignores_counter.
+
+(* One plan object executed k times under ONE context (the counter goes on, the caches are whatever the last call left),
+   from any state: statement by statement the same erasure as never executed plans under new contexts ... *)
+Theorem reexecution_one_context_same_erasure :
+  forall p, is_root p = true -> no_by_without p = true ->
+  forall k c st, erase_all (run_plan_sel k p c st) = erase_all (fresh_seq_sel k p c).
+Proof. exact one_context_same_erasure. Qed.
+Print Assumptions reexecution_one_context_same_erasure.
+
+(* ... hence the same MEANING: "re-executing a prepared plan yields a statement with the same meaning as the first
+   execution apart from the advancing time bounds", for every database, oracle and tie-breaking. *)
+Theorem reexecution_one_context_same_meaning :
+  forall (re_match : String.string -> String.string -> bool) (parse_float : String.string -> option QArith_base.Q)
+         (json_get : String.string -> list String.string -> String.string) (hash_labels : list (String.string * String.string) -> Z)
+         (tie : forall A : Type, list A -> list A) (db : database) p,
+    is_root p = true -> no_by_without p = true ->
+    forall k c st, map (meaning re_match parse_float json_get hash_labels tie db) (run_plan_sel k p c st) =
+                   map (meaning re_match parse_float json_get hash_labels tie db) (fresh_seq_sel k p c).
+Proof. exact one_context_same_meaning. Qed.
+Print Assumptions reexecution_one_context_same_meaning.
+
+(* For EVERY log query no guard is needed: planner.plan() never puts a ByWithoutPlanner into the plan of a log query. *)
+Theorem log_query_reexecution_one_context_same_meaning :
+  forall (re_match : String.string -> String.string -> bool) (parse_float : String.string -> option QArith_base.Q)
+         (json_get : String.string -> list String.string -> String.string) (hash_labels : list (String.string * String.string) -> Z)
+         (tie : forall A : Type, list A -> list A) (db : database) sel fin p,
+    plan_log sel fin = Some p ->
+    forall k c st, map (meaning re_match parse_float json_get hash_labels tie db) (run_plan_sel k p c st) =
+                   map (meaning re_match parse_float json_get hash_labels tie db) (fresh_seq_sel k p c).
+Proof. exact log_query_one_context_same_meaning. Qed.
+Print Assumptions log_query_reexecution_one_context_same_meaning.
+
+(* The object trees of these theorems are the ones whose text the check compares with the real planners byte for byte:
+   printing them gives LogqlCases.run_plan / Replan.fresh_seq. *)
+Theorem run_plan_prints_run_plan_sel :
+  forall k p c st, run_plan k p c st = map (render_at (c_cluster c)) (run_plan_sel k p c st).
+Proof. exact run_plan_renders. Qed.
+Print Assumptions run_plan_prints_run_plan_sel.
+Theorem fresh_seq_prints_fresh_seq_sel :
+  forall k p c, fresh_seq k p c = map (render_at (c_cluster c)) (fresh_seq_sel k p c).
+Proof. exact fresh_seq_renders. Qed.
+Print Assumptions fresh_seq_prints_fresh_seq_sel.
+
+(* the guards of the one-context theorems are met by a plan that DRAWS ids and whose second statement under one context is,
+   as text, not the fresh one; by a metric plan without by/without; not by a plan with `sum by (x)` *)
+Example alpha_guard_met_by_an_id_drawing_plan :
+  match witness_plan with
+  | Some p => is_root p = true /\ no_by_without p = true /\ draws_ids p = true /\
+              List.length (run_plan_sel 2 p witness_ctx pst0) = 2%nat /\
+              olist_eqb (run_plan 2 p witness_ctx pst0) (fresh_seq 2 p witness_ctx) = false
+  | None => False
+  end.
+Proof. exact witness_meets_alpha_guard. Qed.
+Example alpha_guard_met_by_a_metric_plan :
+  match plan_script metric_by_free_example true with
+  | Some p => is_root p = true /\ no_by_without p = true /\ draws_ids p = true
+  | None => False
+  end.
+Proof. exact metric_by_free_meets_guard. Qed.
+Example erase_is_not_trivial :
+  erase_sel (set_from (WRef "a" empty_select) empty_select) <> erase_sel (set_from (WRef "b" empty_select) empty_select).
+Proof. exact erase_keeps_table_alias. Qed.
 (* hypotheses are satisfiable: the witness query plans to a root *)
 Example witness_is_root : exists p, plan_log witness_sel true = Some p /\ is_root p = true.
 Proof. exact witness_plans. Qed.
